@@ -224,12 +224,13 @@ Theorem auxpow_seal_not_reusable : forall (H : bytes -> bytes) se1 se2 ia1 ia2 t
 Proof. exact seal_not_reusable. Qed.
 Print Assumptions auxpow_seal_not_reusable.
 
-(* Full statement (the AuxPoW section is total) is FALSE of the code: common.Hash(AuxPow2()) on a Scrypt share with
-   fewer than 32 bytes of auxpow2 (corpus uncle/scrypt-auxpow2-short, -empty). *)
-Theorem auxpow_section_total_refuted :
-  exists se ia time seal a, auxpow_section (fun _ => []) se ia time seal a = Panic.
-Proof. exact auxpow_section_panic_iff_refuted. Qed.
-Print Assumptions auxpow_section_total_refuted.
+(* The AuxPoW section is total: for every input it accepts or rejects, it never panics.  (Before fix commit
+   f0c87e08 this was FALSE of the code: common.Hash(AuxPow2()) panicked on a Scrypt share with fewer than 32
+   bytes of auxpow2; the corpus cases uncle/scrypt-auxpow2-short and -empty now assert the rejection.) *)
+Theorem auxpow_section_total : forall (H : bytes -> bytes) se ia time seal a,
+  auxpow_section H se ia time seal a <> Panic.
+Proof. exact auxpow_section_total_lemma. Qed.
+Print Assumptions auxpow_section_total.
 
 (* ---- identity hash of a header without AuxPoW: blake3(mix | seal | nonce) ---- *)
 
